@@ -164,12 +164,40 @@ _CHECK = None
 _TIER = None
 
 
+class PartitionTimeout(BaseException):
+    pass
+
+
 def _work(part):
+    """Run one partition under a watchdog: code under test that never returns (a runaway retry, a busy loop) must
+    end in a verdict, not in a check that hangs."""
+    import signal
     st = Stats()
+    limit = int(os.environ.get("VERIF_PARTITION_TIMEOUT", "0")) or (1200 if _TIER == "quick" else 7200)
+
+    def on_alarm(signum, frame):
+        raise PartitionTimeout()
+    old = None
+    try:
+        old = signal.signal(signal.SIGALRM, on_alarm)
+        signal.alarm(limit)
+    except (ValueError, AttributeError):
+        old = None
     try:
         _CHECK.run_partition(part, _TIER, st)
+    except PartitionTimeout:
+        st.violation("partition-did-not-terminate", "partition %r was still running after %d s (normal partitions "
+                     "take seconds): the code under test loops or blocks:\n%s" % (part, limit, traceback.format_exc()[-1200:]),
+                     {"partition": repr(part)})
     except BaseException:
         st.error("partition %r crashed:\n%s" % (part, traceback.format_exc()))
+    finally:
+        try:
+            signal.alarm(0)
+            if old is not None:
+                signal.signal(signal.SIGALRM, old)
+        except (ValueError, AttributeError):
+            pass
     return st
 
 
